@@ -458,7 +458,7 @@ Lemma creator_alloc : forall s t id r, r < nrec s -> creator (alloc s t id) r = 
 Proof. intros. simpl. apply upd_other. lia. Qed.
 
 Ltac other_tac G Hh :=
-  apply tj_other_set with (s := _); auto; try (intros; apply creator_alloc; auto).
+  eapply tj_other_set; eauto; try (intros; apply creator_alloc; auto).
 
 Lemma step_hinv : forall s e s', ginv s -> ids_inj s -> hinv s -> step s e = Some s' -> hinv s'.
 Proof.
@@ -491,3 +491,223 @@ Proof.
   - (* ESpin *)
     destruct (lockw s); [|discriminate].
     destruct (t_pc (thr s t)); try discriminate; inversion H; subst; auto.
+  - (* EBody *)
+    destruct (gi_thr _ G t) as [A B C D F P]; unfold pc_ok in P.
+    destruct (t_pc (thr s t)) eqn:Hpc; try discriminate.
+    + inversion H; subst; clear H.
+      destruct (Nat.eq_dec x t) as [->|Nx]; [|other_tac G Hh].
+      unfold tj in *; simpl; rewrite upd_same; simpl; rewrite Hpc in Tx.
+      intros L. destruct (Tx L) as [T1 [T2 T3]]. auto.
+    + inversion H; subst; clear H. destruct P as [P1 P2].
+      destruct (Nat.eq_dec x t) as [->|Nx].
+      * unfold tj in *; simpl; rewrite upd_same; simpl; rewrite Hpc in Tx.
+        intros L. destruct (Tx L) as [T1 [T2 T3]]. rewrite T2. rewrite P2. rewrite upd_same.
+        split; [discriminate|]. auto.
+      * other_tac G Hh. intros L. simpl. apply upd_other. rewrite P2. intros E. apply Nx.
+        apply Inj; auto. apply live_of_pc; auto. congruence.
+    + destruct (t_mine (thr s t)) eqn:Hm; [|discriminate]. inversion H; subst; clear H.
+      destruct (D _ eq_refl) as [D1 D2].
+      destruct (Nat.eq_dec x t) as [->|Nx].
+      * unfold tj in *; simpl; rewrite upd_same; simpl; rewrite Hpc in Tx.
+        intros L. destruct (Tx L) as [T1 [T2 T3]]. rewrite Hm in *. auto.
+      * other_tac G Hh. intros L. simpl. apply upd_other. rewrite D2. intros E. apply Nx.
+        apply Inj; auto. apply live_of_pc; auto. congruence.
+  - (* EUnlock *)
+    destruct (t_pc (thr s t)) eqn:Hpc; try discriminate; try destruct use; inversion H; subst; clear H;
+      (destruct (Nat.eq_dec x t) as [->|Nx]; [|other_tac G Hh]);
+      unfold tj in *; simpl; rewrite upd_same; simpl; rewrite Hpc in Tx;
+      intros L; destruct (Tx L) as [T1 [T2 T3]]; auto.
+    + destruct T2 as [T2 T4]. rewrite T4. split; [|split]; auto.
+      * intros r0 Hr0; inversion Hr0; subst; auto.
+      * intros K. destruct (T3 K) as [U _]. discriminate.
+    + destruct T2 as [T2 T4]. rewrite T4. split; [|split]; auto.
+      * intros r0 Hr0; inversion Hr0; subst; auto.
+      * intros K. destruct (T3 K) as [_ [M E]]. exists r. auto.
+  - (* EAfterGet *)
+    destruct (t_pc (thr s t)) eqn:Hpc; try discriminate. destruct r as [r|]; inversion H; subst; clear H;
+      (destruct (Nat.eq_dec x t) as [->|Nx]; [|other_tac G Hh]);
+      unfold tj in *; simpl; rewrite upd_same; simpl; rewrite Hpc in Tx;
+      intros L; destruct (Tx L) as [T1 [T2 T3]].
+    + split; [|split]; auto.
+      * destruct (t_seen (thr s t)) eqn:Hs; intros r0 Hr0; inversion Hr0; subst; auto.
+      * intros K. destruct (T3 K) as [r0 [M [S E]]]. exists r0. rewrite S. auto.
+    + destruct (t_seen (thr s t)) eqn:Hs.
+      * specialize (T1 _ eq_refl). congruence.
+      * split; [discriminate|]. split; auto. intros K. destruct (T3 K) as [r0 [M [S E]]]. discriminate.
+  - (* EReturn *)
+    destruct (_ && _) eqn:Hc in H; [|discriminate]. bool_hyps.
+    destruct (t_frames (thr s t)) as [|r rest] eqn:Hf; [discriminate|].
+    destruct (_ && _) in H; [discriminate|]. inversion H; subst; clear H.
+    destruct (Nat.eq_dec x t) as [->|Nx]; [|other_tac G Hh].
+    unfold tj in *; simpl; rewrite upd_same; simpl; rewrite Heqp in Tx. auto.
+  - (* EFinish *)
+    destruct (_ && _) eqn:Hc in H; [|discriminate]. bool_hyps.
+    destruct (t_kind (thr s t)) eqn:Hk; try discriminate; inversion H; subst; clear H;
+      (destruct (Nat.eq_dec x t) as [->|Nx]; [|other_tac G Hh]);
+      unfold tj in *; simpl; rewrite upd_same; simpl; rewrite Heqp in Tx;
+      intros L; destruct (Tx H0) as [T1 [T2 T3]]; auto.
+    split; auto. split; auto. discriminate.
+  - (* EExit *)
+    destruct (t_pc (thr s t)) eqn:Hpc; try discriminate. inversion H; subst; clear H.
+    destruct (Nat.eq_dec x t) as [->|Nx]; [|other_tac G Hh].
+    unfold tj; simpl; rewrite upd_same; simpl. discriminate.
+Qed.
+
+Lemma reach_hinv : forall id0 s, reach id0 s -> hinv s.
+Proof.
+  induction 1. apply init_hinv.
+  apply (step_hinv s e s'); auto. apply (reach_ginv id0); auto. apply (reach_ids_inj id0); auto.
+Qed.
+
+(* ---------- statements used by Props.v ---------- *)
+Definition in_cs (s : state) (t : nat) : Prop := pc_cs (t_pc (thr s t)) = true.
+
+Definition Mutex (s : state) : Prop :=
+  (forall t1 t2, in_cs s t1 -> in_cs s t2 -> t1 = t2) /\ (forall t, in_cs s t -> lockw s = true).
+
+Lemma lock_mutex : forall id0 tr s, run (init id0) tr = Some s -> run_inj (init id0) tr -> Mutex s.
+Proof.
+  intros id0 tr s H Hi. pose proof (reach_ginv _ _ (run_reach _ _ _ H Hi)) as G.
+  split. apply gi_lock_b; auto. apply gi_lock_a; auto.
+Qed.
+
+(* the lock invariant does not depend on the runtime hypothesis at all *)
+Lemma run_ginv : forall tr s s', ginv s -> run s tr = Some s' -> ginv s'.
+Proof.
+  induction tr as [|e tr IH]; simpl; intros s s' G H.
+  - inversion H; subst; auto.
+  - destruct (step s e) eqn:E; [|discriminate]. eapply IH; eauto. eapply step_ginv; eauto.
+Qed.
+
+Lemma lock_mutex_any : forall id0 tr s, run (init id0) tr = Some s -> Mutex s.
+Proof.
+  intros id0 tr s H. pose proof (run_ginv _ _ _ (init_ginv id0) H) as G.
+  split. apply gi_lock_b; auto. apply gi_lock_a; auto.
+Qed.
+
+(* the registry map is read and written only by the lock holder *)
+Lemma registry_access_locked : forall s e s', step s e = Some s' ->
+  (reg s' <> reg s -> exists t, e = EBody t /\ in_cs s t) /\
+  (forall t, e = EBody t -> in_cs s t).
+Proof.
+  intros s e s' H. split.
+  - intros Hne. destruct e; unfold step in H;
+      repeat match type of H with
+             | context [if ?c then _ else _] => destruct c eqn:?; try discriminate
+             | context [match t_pc ?x with _ => _ end] => destruct (t_pc x) eqn:?; try discriminate
+             | context [match ?x with _ => _ end] => destruct x eqn:?; try discriminate
+             end; inversion H; subst; try (exfalso; apply Hne; reflexivity).
+    all: exists t; split; auto; unfold in_cs; rewrite Heqp; reflexivity.
+  - intros t ->. unfold step in H. unfold in_cs. destruct (t_pc (thr s t)); try discriminate; reflexivity.
+Qed.
+
+Definition Inv33 (s : state) : Prop :=
+  (forall g r, reg s g = Some r -> owner s r = g) /\
+  (forall t r, In r (t_frames (thr s t)) -> t_live (thr s t) = true /\ owner s r = t_id (thr s t)) /\
+  (forall t1 t2 r, In r (t_frames (thr s t1)) -> In r (t_frames (thr s t2)) -> t1 = t2).
+
+Lemma frames_live : forall s t r, ginv s -> In r (t_frames (thr s t)) -> t_live (thr s t) = true.
+Proof.
+  intros s t r G H. destruct (t_live (thr s t)) eqn:L; auto.
+  apply (ti_dead _ _ (gi_thr _ G t)) in L. destruct L as [_ L]. rewrite L in H. destruct H.
+Qed.
+
+Lemma reach_inv33 : forall id0 s, reach id0 s -> Inv33 s.
+Proof.
+  intros id0 s R. pose proof (reach_ginv _ _ R) as G. pose proof (reach_ids_inj _ _ R) as I.
+  split; [|split].
+  - intros g r H. apply (gi_reg _ G) in H. destruct H; auto.
+  - intros t r H. split. eapply frames_live; eauto.
+    apply (ti_frames _ _ (gi_thr _ G t)) in H. destruct H; auto.
+  - intros t1 t2 r H1 H2. apply I.
+    + eapply frames_live; eauto.
+    + eapply frames_live; eauto.
+    + apply (ti_frames _ _ (gi_thr _ G t1)) in H1. apply (ti_frames _ _ (gi_thr _ G t2)) in H2.
+      destruct H1, H2. congruence.
+Qed.
+
+Lemma owner_invariant : forall id0 tr s, run (init id0) tr = Some s -> run_inj (init id0) tr -> Inv33 s.
+Proof. intros. eapply reach_inv33. eapply run_reach; eauto. Qed.
+
+(* every registry lookup made by a goroutine during its life returns the same record *)
+Definition Stable (s : state) : Prop :=
+  forall t r y, t_live (thr s t) = true -> t_seen (thr s t) = Some r -> t_pc (thr s t) = PGot y -> y = Some r.
+
+Lemma lookup_stable : forall id0 tr s, run (init id0) tr = Some s -> run_inj (init id0) tr -> Stable s.
+Proof.
+  intros id0 tr s H Hi t r y L S P.
+  pose proof (reach_hinv _ _ (run_reach _ _ _ H Hi) t) as T. unfold tj in T.
+  destruct (T L) as [T1 [T2 _]]. rewrite P in *. specialize (T1 _ S). congruence.
+Qed.
+
+(* a goroutine started by a go statement gets from the registry the record it created itself,
+   whatever stale entry its (possibly reused) identity had before *)
+Definition GoFresh (s : state) : Prop :=
+  forall t y, t_live (thr s t) = true -> t_kind (thr s t) = KGo -> t_pc (thr s t) = PGot y ->
+    exists r, y = Some r /\ creator s r = t /\ t_mine (thr s t) = Some r.
+
+Lemma go_child_fresh : forall id0 tr s, run (init id0) tr = Some s -> run_inj (init id0) tr -> GoFresh s.
+Proof.
+  intros id0 tr s H Hi t y L K P.
+  pose proof (reach_hinv _ _ (run_reach _ _ _ H Hi) t) as T. unfold tj in T.
+  destruct (T L) as [T1 [T2 T3]]. rewrite P in *. destruct (T3 K) as [r [M [S E]]].
+  exists r. specialize (T1 _ S). split; [congruence|]. auto.
+Qed.
+
+(* ---------- decidable form of the runtime hypothesis, for concrete traces ---------- *)
+Definition pair_okb (s : state) (t1 t2 : nat) : bool :=
+  negb (t_live (thr s t1) && t_live (thr s t2) && Nat.eqb (t_id (thr s t1)) (t_id (thr s t2))) || Nat.eqb t1 t2.
+
+Definition ids_injb (s : state) : bool :=
+  forallb (fun t1 => forallb (fun t2 => pair_okb s t1 t2) (seq 0 (nthr s))) (seq 0 (nthr s)).
+
+Lemma ids_injb_sound : forall s, ginv s -> ids_injb s = true -> ids_inj s.
+Proof.
+  intros s G H t1 t2 L1 L2 E.
+  assert (B1 : t1 < nthr s) by (apply born_live; auto).
+  assert (B2 : t2 < nthr s) by (apply born_live; auto).
+  unfold ids_injb in H. rewrite forallb_forall in H.
+  specialize (H t1). rewrite in_seq in H. specialize (H ltac:(lia)).
+  rewrite forallb_forall in H. specialize (H t2). rewrite in_seq in H. specialize (H ltac:(lia)).
+  unfold pair_okb in H. rewrite L1, L2, E, Nat.eqb_refl in H. simpl in H. apply Nat.eqb_eq; auto.
+Qed.
+
+Fixpoint run_injb (s : state) (tr : list event) : bool :=
+  match tr with
+  | [] => true
+  | e :: tr' => match step s e with
+                | Some s' => ids_injb s' && run_injb s' tr'
+                | None => true
+                end
+  end.
+
+Lemma run_injb_sound : forall tr s, ginv s -> run_injb s tr = true -> run_inj s tr.
+Proof.
+  induction tr as [|e tr IH]; simpl; intros s G H; auto.
+  destruct (step s e) eqn:E; auto. apply andb_true_iff in H. destruct H.
+  assert (ginv s0) by (eapply step_ginv; eauto).
+  split. apply ids_injb_sound; auto. apply IH; auto.
+Qed.
+
+(* ---------- refutation of the stronger "fresh record" reading of reuse safety ---------- *)
+(* goroutine 1 (identity 5, started by compiled code) calls an interpreted function: lookup finds nothing,
+   creates record 1 and registers it; it returns and exits - nothing unregisters record 1.
+   goroutine 2 is given the same identity 5; its lookup finds record 1, created by goroutine 1. *)
+Definition stale_trace : list event :=
+  [ESpawnForeign 1 5; ECall 1 0; ELock 1; EBody 1; EUnlock 1; EAfterGet 1; ELock 1; EBody 1; EUnlock 1;
+   EReturn 1; EFinish 1; EExit 1;
+   ESpawnForeign 2 5; ECall 2 0; ELock 2; EBody 2; EUnlock 2; EAfterGet 2].
+
+Definition StaleUse (s : state) (t r : nat) : Prop :=
+  t_live (thr s t) = true /\ In r (t_frames (thr s t)) /\ creator s r <> t /\ t_live (thr s (creator s r)) = false.
+
+Lemma reuse_refuted : exists id0 tr s t r,
+  run (init id0) tr = Some s /\ run_inj (init id0) tr /\ StaleUse s t r.
+Proof.
+  exists 0, stale_trace.
+  destruct (run (init 0) stale_trace) as [s|] eqn:E; [|vm_compute in E; discriminate].
+  exists s, 2, 1. split; auto. split.
+  - apply run_injb_sound. apply init_ginv. vm_compute. reflexivity.
+  - vm_compute in E. inversion E; subst; clear E. unfold StaleUse. simpl.
+    repeat split; auto. discriminate.
+Qed.
